@@ -117,7 +117,10 @@ def gen_values(ctx, shapes):
              {'a': [0, '0', 0.0, '0.0', False, 'False']}, [1, 1.0, True, '1.0'],
              [0.1 + 0.2, 1 / 3, 3.141592653589793, 1e-13, 2.220446049250313e-16, 123456789.12345679, -0.30000000000000004],
              {'pi': 3.141592653589793, 'eps': 2.220446049250313e-16, 'third': 1 / 3, 'l': [1e-13] * 40},
-             {'€uro': 'é', 'Z': 1, 'a': 2, 'B': 3, 'aa': 4, '': 5, ' ': 6}, [[1, [2, [3, [4, [5]]]]]], 'just a string', 12, None]
+             {'€uro': 'é', 'Z': 1, 'a': 2, 'B': 3, 'aa': 4, '': 5, ' ': 6}, [[1, [2, [3, [4, [5]]]]]], 'just a string', 12, None,
+             # characters that are not "printable" for str.isprintable() without being control characters (no-break space,
+             # soft hyphen, zero-width space), next to Latin-1 and astral characters
+             ['10\u00a0kg', 'soft\u00adhyphen', 'caf\u00e9\u200bbar', '\U0001F600\u00a0'], {'k\u00a0': 'v\u00ad', '\u00e9\u200b': 1}]
     # D. TLC-enumerated shapes, scaled
     pads = (1, 60, 190) if ctx.quick else (1, 30, 60, 95, 190)
     for i, sh in enumerate(shapes):
